@@ -693,8 +693,17 @@ class Machine:
                     st["fired"].append((p.label, "%s %s" % (act, ekind)))
                     self.fault_fired.append((p.inv, p.label, "%s at %s" % (act, ekind)))
         if kind == "mkstemp" and reply == "GO":
-            self.ntemp += 1
-            reply = "GO name=%s%04d" % (self.env["wid"], self.ntemp)
+            # like the real mkstemp, a name that has been unlinked may be handed out again (to anybody): the lowest
+            # free one is chosen, so that a driver which gives a name up and later unlinks it again is caught doing so
+            tmpl = args[0]
+            k = 1
+            while k < 9999:
+                cand = tmpl.replace("XXXXXX", "%s%04d" % (self.env["wid"], k), 1) if "XXXXXX" in tmpl else None
+                if cand is None or not os.path.lexists(cand):
+                    break
+                k += 1
+            self.ntemp = max(self.ntemp, k)
+            reply = "GO name=%s%04d" % (self.env["wid"], k)
         if kind == "fork" and reply == "GO":
             self.pending_hello += 1
         if kind in ("exit", "_exit"):
